@@ -53,6 +53,10 @@ def _gen_case_a(seed: int, tier: str, index: int) -> Dict[str, Any]:
     rng.shuffle(plan)
     cfg = {"snapshot": snap, "net": {"lat_min": 0.001, "lat_max": 0.02}, "loop": {"cost_small_p": 0.2, "cost_small_max": 0.001},
            "tables": None}
+    if rng.random() < 0.3:
+        from sim.system import draw_firmware
+
+        cfg["firmware"] = draw_firmware(rng)
     if rng.random() < 0.4:
         # tuning knob: a request timeout shorter than the time the library's own refresh holds the connection (26 segments x 50 ms), so
         # that a command issued behind it waits for the lock longer than one timeout
